@@ -1,6 +1,7 @@
 (* BMMFacts.v -- lemmas about Model/BMM.v and Model/ArrayOps.v *)
-From Coq Require Import Lia ZArith List Bool.
+From Coq Require Import Lia ZArith List Bool Arith PeanoNat.
 From Ctg Require Import Base BMM ArrayOps.
+Import ListNotations.
 
 Lemma nprod_cons x l : nprod (x :: l) = x * nprod l.
 Proof. reflexivity. Qed.
@@ -8,4 +9,289 @@ Lemma nprod_app l1 l2 : nprod (l1 ++ l2) = nprod l1 * nprod l2.
 Proof.
   induction l1 as [|x l1 IH]; [cbn [app]; change (nprod []) with 1; lia|].
   cbn [app]. rewrite !nprod_cons, IH. lia.
+Qed.
+
+(* ================================================================== *)
+(* row-major index arithmetic: ravel / unravel / all_idx / tget / tbuild / reshape / transpose *)
+
+
+Definition valid_idx (s idx : list nat) : Prop := Forall2 lt idx s.
+
+Lemma nprod_nil : nprod [] = 1.
+Proof. reflexivity. Qed.
+
+(* ---------- generic list helpers ---------- *)
+
+Lemma nth_map_lt {A B} (f : A -> B) (l : list A) (k : nat) (d : A) (d' : B) :
+  k < length l -> nth k (map f l) d' = f (nth k l d).
+Proof.
+  revert k. induction l as [|x l IH]; intros k Hk; cbn [length] in Hk; [lia|].
+  destruct k as [|k]; cbn [map nth]; [reflexivity|]. apply IH. lia.
+Qed.
+
+Lemma flat_map_length_const {A B} (f : A -> list B) (l : list A) (n : nat) :
+  (forall a, In a l -> length (f a) = n) -> length (flat_map f l) = length l * n.
+Proof.
+  induction l as [|x l IH]; intros Hf; cbn [flat_map length]; [reflexivity|].
+  rewrite app_length, Hf by (left; reflexivity).
+  rewrite IH by (intros a Ha; apply Hf; right; exact Ha).
+  cbn [Nat.mul]. reflexivity.
+Qed.
+
+(* ---------- 1 ---------- *)
+
+Lemma all_idx_length : forall s, length (all_idx s) = nprod s.
+Proof.
+  induction s as [|d s IH]; [reflexivity|].
+  cbn [all_idx]. rewrite nprod_cons.
+  rewrite (flat_map_length_const _ _ (nprod s)).
+  - rewrite seq_length. reflexivity.
+  - intros a _. rewrite map_length. exact IH.
+Qed.
+
+(* ---------- 2 ---------- *)
+
+Lemma ravel_lt : forall s idx, valid_idx s idx -> ravel s idx < nprod s.
+Proof.
+  intros s idx H. unfold valid_idx in H.
+  induction H as [|i d idx s Hid Hrest IH].
+  - cbn [ravel]. rewrite nprod_nil. lia.
+  - cbn [ravel]. rewrite nprod_cons. nia.
+Qed.
+
+(* ---------- 3 ---------- *)
+
+Lemma unravel_valid : forall s k, k < nprod s -> valid_idx s (unravel s k).
+Proof.
+  unfold valid_idx.
+  induction s as [|d s IH]; intros k Hk; cbn [unravel]; [constructor|].
+  rewrite nprod_cons in Hk.
+  assert (HP : nprod s <> 0) by nia.
+  constructor.
+  - apply Nat.div_lt_upper_bound; [exact HP|]. lia.
+  - apply IH. apply Nat.mod_upper_bound. exact HP.
+Qed.
+
+(* ---------- 4 ---------- *)
+
+Lemma ravel_unravel : forall s k, k < nprod s -> ravel s (unravel s k) = k.
+Proof.
+  induction s as [|d s IH]; intros k Hk.
+  - rewrite nprod_nil in Hk. cbn [unravel ravel]. lia.
+  - rewrite nprod_cons in Hk.
+    assert (HP : nprod s <> 0) by nia.
+    cbn [unravel ravel].
+    rewrite IH by (apply Nat.mod_upper_bound; exact HP).
+    pose proof (Nat.div_mod k (nprod s) HP) as Hdm.
+    rewrite (Nat.mul_comm (k / nprod s)). lia.
+Qed.
+
+(* ---------- 5 ---------- *)
+
+Lemma unravel_ravel : forall s idx, valid_idx s idx -> unravel s (ravel s idx) = idx.
+Proof.
+  intros s idx H. unfold valid_idx in H.
+  induction H as [|i d idx s Hid Hrest IH]; [reflexivity|].
+  cbn [ravel unravel].
+  assert (Hr : ravel s idx < nprod s) by (apply ravel_lt; exact Hrest).
+  assert (HP : nprod s <> 0) by lia.
+  rewrite Nat.div_add_l by exact HP.
+  rewrite (Nat.div_small _ _ Hr).
+  rewrite (Nat.add_comm (i * nprod s) (ravel s idx)), Nat.mod_add by exact HP.
+  rewrite (Nat.mod_small _ _ Hr).
+  rewrite IH. f_equal. lia.
+Qed.
+
+(* ---------- 6 ---------- *)
+
+Lemma nth_flat_map_blocks (L : list (list nat)) :
+  forall d a k, k < d * length L ->
+    nth k (flat_map (fun i => map (cons i) L) (seq a d)) [] =
+    (a + k / length L) :: nth (k mod length L) L [].
+Proof.
+  induction d as [|d IH]; intros a k Hk; [lia|].
+  assert (HP : length L <> 0) by nia.
+  cbn [seq flat_map].
+  destruct (Nat.lt_ge_cases k (length L)) as [Hlt|Hge].
+  - rewrite app_nth1 by (rewrite map_length; exact Hlt).
+    rewrite (nth_map_lt (cons a) L k [] []) by exact Hlt.
+    rewrite (Nat.div_small _ _ Hlt), (Nat.mod_small _ _ Hlt).
+    f_equal. lia.
+  - rewrite app_nth2 by (rewrite map_length; exact Hge).
+    rewrite map_length.
+    remember (k - length L) as k' eqn:Ek'.
+    assert (Hk' : k = 1 * length L + k') by lia.
+    rewrite IH by nia.
+    rewrite Hk'.
+    rewrite Nat.div_add_l by exact HP.
+    rewrite (Nat.add_comm (1 * length L) k'), Nat.mod_add by exact HP.
+    f_equal. lia.
+Qed.
+
+Lemma all_idx_nth : forall s k, k < nprod s -> nth k (all_idx s) [] = unravel s k.
+Proof.
+  induction s as [|d s IH]; intros k Hk.
+  - rewrite nprod_nil in Hk. assert (k = 0) by lia. subst k. reflexivity.
+  - rewrite nprod_cons in Hk.
+    assert (HP : nprod s <> 0) by nia.
+    cbn [all_idx unravel].
+    rewrite nth_flat_map_blocks by (rewrite all_idx_length; exact Hk).
+    rewrite all_idx_length.
+    rewrite IH by (apply Nat.mod_upper_bound; exact HP).
+    reflexivity.
+Qed.
+
+(* ---------- 7 ---------- *)
+
+Lemma in_all_idx : forall s idx, In idx (all_idx s) <-> valid_idx s idx.
+Proof.
+  unfold valid_idx.
+  induction s as [|d s IH]; intros idx.
+  - cbn [all_idx In]. split.
+    + intros [H|[]]. subst idx. constructor.
+    + intros H. inversion H. left. reflexivity.
+  - cbn [all_idx]. rewrite in_flat_map. split.
+    + intros [i [Hi Hin]]. apply in_map_iff in Hin.
+      destruct Hin as [idx' [Heq Hin']]. subst idx.
+      apply in_seq in Hi. constructor; [lia|]. apply IH. exact Hin'.
+    + intros H. inversion H as [|i d' idx' s' Hid Hrest]. subst.
+      exists i. split; [apply in_seq; lia|].
+      apply in_map. apply IH. exact Hrest.
+Qed.
+
+(* ---------- 8 ---------- *)
+
+Lemma all_idx_nodup : forall s, NoDup (all_idx s).
+Proof.
+  intros s. apply (NoDup_nth (all_idx s) []).
+  intros i j Hi Hj Heq.
+  rewrite all_idx_length in Hi, Hj.
+  rewrite !all_idx_nth in Heq by assumption.
+  rewrite <- (ravel_unravel s i Hi), <- (ravel_unravel s j Hj), Heq.
+  reflexivity.
+Qed.
+
+(* ---------- 9 ---------- *)
+
+Lemma tget_tbuild : forall s f idx, valid_idx s idx -> tget (tbuild s f) idx = f idx.
+Proof.
+  intros s f idx H.
+  unfold tget, tbuild, tshape, tdata. cbn [fst snd].
+  assert (Hr : ravel s idx < nprod s) by (apply ravel_lt; exact H).
+  rewrite (nth_map_lt f (all_idx s) (ravel s idx) [] 0%Z)
+    by (rewrite all_idx_length; exact Hr).
+  rewrite all_idx_nth by exact Hr.
+  rewrite unravel_ravel by exact H.
+  reflexivity.
+Qed.
+
+(* ---------- 10 ---------- *)
+
+Lemma tbuild_wf : forall s f, wf_tensor (tbuild s f) = true.
+Proof.
+  intros s f. unfold wf_tensor, tbuild, tshape, tdata. cbn [fst snd].
+  rewrite map_length, all_idx_length. apply Nat.eqb_refl.
+Qed.
+
+(* ---------- 11 ---------- *)
+
+Lemma ravel_app : forall s1 s2 i1 i2, length i1 = length s1 ->
+  ravel (s1 ++ s2) (i1 ++ i2) = ravel s1 i1 * nprod s2 + ravel s2 i2.
+Proof.
+  induction s1 as [|d s1 IH]; intros s2 i1 i2 Hlen.
+  - destruct i1 as [|i i1]; [|cbn [length] in Hlen; lia].
+    cbn [app]. cbn [ravel]. lia.
+  - destruct i1 as [|i i1]; cbn [length] in Hlen; [lia|].
+    cbn [app]. cbn [ravel].
+    rewrite IH by lia. rewrite nprod_app. lia.
+Qed.
+
+(* ---------- 12 ---------- *)
+
+Lemma unravel_app : forall s1 s2 k, k < nprod (s1 ++ s2) -> 0 < nprod s2 ->
+  unravel (s1 ++ s2) k = unravel s1 (k / nprod s2) ++ unravel s2 (k mod nprod s2).
+Proof.
+  induction s1 as [|d s1 IH]; intros s2 k Hk H2.
+  - cbn [app] in *. cbn [unravel app]. rewrite Nat.mod_small by exact Hk. reflexivity.
+  - cbn [app] in *. rewrite nprod_cons, nprod_app in Hk.
+    assert (HP2 : nprod s2 <> 0) by lia.
+    assert (HP1 : nprod s1 <> 0) by nia.
+    cbn [unravel app]. rewrite nprod_app.
+    assert (Hm : k mod (nprod s1 * nprod s2) < nprod (s1 ++ s2)).
+    { rewrite nprod_app. apply Nat.mod_upper_bound. nia. }
+    rewrite IH by assumption.
+    rewrite (Nat.mul_comm (nprod s1) (nprod s2)).
+    rewrite Nat.div_div by assumption.
+    rewrite Nat.mod_mul_r by assumption.
+    f_equal. f_equal.
+    + f_equal.
+      rewrite (Nat.mul_comm (nprod s2)), Nat.div_add by exact HP2.
+      rewrite Nat.div_small by (apply Nat.mod_upper_bound; exact HP2). lia.
+    + f_equal.
+      rewrite (Nat.mul_comm (nprod s2)), Nat.mod_add by exact HP2.
+      apply Nat.mod_mod. exact HP2.
+Qed.
+
+(* ---------- 13 ---------- *)
+
+Lemma tget_reshape : forall t s t' idx, reshape t s = Some t' -> wf_tensor t = true ->
+  valid_idx s idx -> tget t' idx = tget t (unravel (tshape t) (ravel s idx)).
+Proof.
+  intros t s t' idx Hre Hwf Hv.
+  unfold reshape in Hre.
+  destruct (Nat.eqb (nprod s) (length (tdata t))) eqn:E; [|discriminate].
+  inversion Hre; subst t'. clear Hre.
+  apply Nat.eqb_eq in E. unfold wf_tensor in Hwf. apply Nat.eqb_eq in Hwf.
+  unfold tget. unfold tshape at 1. unfold tdata at 1. cbn [fst snd].
+  assert (Hr : ravel s idx < nprod (tshape t)).
+  { rewrite <- Hwf, <- E. apply ravel_lt. exact Hv. }
+  rewrite ravel_unravel by exact Hr. reflexivity.
+Qed.
+
+(* ---------- 14 ---------- *)
+
+Lemma tbuild_ext : forall s f g, (forall idx, valid_idx s idx -> f idx = g idx) ->
+  tbuild s f = tbuild s g.
+Proof.
+  intros s f g H. unfold tbuild. f_equal.
+  apply map_ext_in. intros idx Hin. apply H. apply in_all_idx. exact Hin.
+Qed.
+
+(* ---------- 15 ---------- *)
+
+Lemma tensor_ext : forall t1 t2, wf_tensor t1 = true -> wf_tensor t2 = true ->
+  tshape t1 = tshape t2 ->
+  (forall idx, valid_idx (tshape t1) idx -> tget t1 idx = tget t2 idx) -> t1 = t2.
+Proof.
+  intros [s1 d1] [s2 d2] Hw1 Hw2 Hs Hget.
+  unfold wf_tensor, tshape, tdata in *. cbn [fst snd] in *.
+  subst s2. apply Nat.eqb_eq in Hw1. apply Nat.eqb_eq in Hw2.
+  f_equal.
+  apply (nth_ext d1 d2 0%Z 0%Z); [lia|].
+  intros k Hk. rewrite Hw1 in Hk.
+  specialize (Hget (unravel s1 k) (unravel_valid s1 k Hk)).
+  unfold tget, tshape, tdata in Hget. cbn [fst snd] in Hget.
+  rewrite ravel_unravel in Hget by exact Hk. exact Hget.
+Qed.
+
+(* ---------- 16 / 17 ---------- *)
+
+Lemma transpose_shape : forall t p t', transpose t p = Some t' ->
+  tshape t' = dims_at (tshape t) p.
+Proof.
+  intros t p t' H. unfold transpose in H.
+  destruct (is_perm p (length (tshape t))); [|discriminate].
+  inversion H. reflexivity.
+Qed.
+
+Lemma tget_transpose : forall t p t' idx, transpose t p = Some t' ->
+  valid_idx (tshape t') idx ->
+  tget t' idx = tget t (map (fun j => nth (pos_in j p) idx 0) (seq 0 (length (tshape t)))).
+Proof.
+  intros t p t' idx H Hv.
+  rewrite (transpose_shape t p t' H) in Hv.
+  unfold transpose in H.
+  destruct (is_perm p (length (tshape t))); [|discriminate].
+  inversion H; subst t'. clear H.
+  rewrite tget_tbuild by exact Hv. reflexivity.
 Qed.
